@@ -219,6 +219,7 @@ type cniPod struct {
 	WantENI     bool
 	ExtendedArg string // value of the galaxy args annotation ("" = none)
 	HostPort    int32  // > 0: the container declares this host port (tcp, container port 80)
+	HostPort2   int32  // > 0: and this second one (udp, container port 53)
 	Labels      map[string]string
 }
 
@@ -233,6 +234,9 @@ func (h *cniHarness) putPod(p cniPod) {
 	}
 	if p.HostPort > 0 {
 		pod.Spec.Containers[0].Ports = []corev1.ContainerPort{{HostPort: p.HostPort, ContainerPort: 80, Protocol: corev1.ProtocolTCP}}
+		if p.HostPort2 > 0 {
+			pod.Spec.Containers[0].Ports = append(pod.Spec.Containers[0].Ports, corev1.ContainerPort{HostPort: p.HostPort2, ContainerPort: 53, Protocol: corev1.ProtocolUDP})
+		}
 	}
 	if p.WantENI {
 		q := resource.NewQuantity(1, resource.DecimalSI)
